@@ -22,7 +22,8 @@ RULE = ("RouteLab: real NetworkServiceAccessPoint + NetworkServiceElement statio
         "a global broadcast must reach quiescence within 2*255*(#routers) forwarded frames. Non-trivial: message crossing >= 1 "
         "router. Distinct by (topology, message list)."
         " Also: steps of 2-4 messages from different stations in the same instant (crossing traffic)."
-        " Station addresses reused across networks; one router that also hosts a device.")
+        " Station addresses reused across networks; one router that also hosts a device."
+        " Routers announcing Network-Number-Is between messages. One reduced copy of a generated shard runs with the library's debug tracing switched on (label tracing-on).")
 ASSUMPTIONS = [
     "network numbers are unique and MACs unique per LAN; a station that does not know its own network number never addresses its own network as a remote one",
     "in cyclic topologies exactly-once delivery is not asserted, only termination",
